@@ -10,7 +10,7 @@ extern "C" {
 
 enum { LT_PUT, LT_GET, LT_GETMULTI, LT_REMOVE, LT_WALK, LT_WALKREMOVE, LT_SORT, LT_SIZE, LT_CLEAR, LT_SAVELOAD, LT_LOCKEDWALK, LT_DEBUG };
 static const std::vector<std::string> LT_NAMES = {"put", "get", "getmulti", "remove", "walk", "walkremove", "sort", "size", "clear", "saveload", "lockedwalk", "debug"};
-enum { NULLKEY = 0x100, NULLDATA = 0x200 };
+enum { NULLKEY = 0x100, NULLDATA = 0x200, SELFREF = 0x400 };
 enum { O_UNIQUE = 1, O_CI = 2, O_TOP = 4, O_FWD = 8 };
 
 struct LtWorld;
@@ -59,6 +59,7 @@ struct LtWorld : World {
             int klass = (api == 1 || api == 2 || mtm) ? (r.chance(1, 2) ? 1 : 5) : wpick(r, {{30, 1}, {30, 5}, {10, 0}, {10, 3}, {10, 4}, {10, 2}});
             op.b = (int)r.below(1 << 20); op.c = mtm ? r.range(2, 10) : std::max(2, gen_vlen(r, 80)); op.d = api | (klass << 2);
             if (api == 3) op.b = (int)r.next();
+            if (api == 2 && !mtm && r.chance(1, 4)) op.c = gen_fmt_len(r);
             break;
         }
         case LT_GET: op.d = (mtm ? 1 : (int)r.below(2)) | ((int)r.below(3) << 1); break;
@@ -69,6 +70,7 @@ struct LtWorld : World {
         case LT_SAVELOAD: op.d = (int)r.below(2); break;
         default: break;
         }
+        if (!mtm && op.k == LT_PUT && r.chance(1, 25)) { op.d = SELFREF; return op; }
         if (c14 && r.chance(1, 8) && (op.k == LT_PUT || op.k == LT_GET || op.k == LT_REMOVE)) op.d |= r.chance(1, 2) ? NULLKEY : (op.k == LT_PUT ? NULLDATA : NULLKEY);
         return op;
     }
@@ -100,13 +102,24 @@ struct LtWorld : World {
                ((opts & O_TOP) ? QLISTTBL_INSERTTOP : 0) | ((opts & O_FWD) ? QLISTTBL_LOOKUPFORWARD : 0);
     }
     bool sut_create(Ctx &x) override {
-        scratch = x.scratch;
+        scratch = x.scratch; pending = nullptr;
         { InSut s; t = qlisttbl(libopts()); }
         char b[32]; snprintf(b, sizeof b, "cfg.opts_%d", opts); x.st.add(b);
         return t != nullptr;
     }
-    void sut_destroy(Ctx &) override { if (t) { InSut s; t->free(t); } t = nullptr; }
-    void sut_abandon() override { t = nullptr; }
+    void sut_destroy(Ctx &x) override {
+        qlisttbl_data_t *keep = pending; std::vector<Bytes> ke = pending_expect;
+        if (t) { InSut s; t->free(t); } t = nullptr;
+        if (keep) {
+            // the result set must survive the table
+            pending = nullptr;
+            bool bad = false;
+            for (size_t i = 0; i < ke.size(); i++) if (memcmp(keep[i].data, ke[i].data(), ke[i].size()) != 0) bad = true;
+            { InSut s; qlisttbl_freemulti(keep); }
+            if (bad) x.fail("alias", "alias", "a value copied out by getmulti(newmem) changed when the table was freed");
+        }
+    }
+    void sut_abandon() override { t = nullptr; pending = nullptr; }
     void *sut_mutex() override { return t ? t->qmutex : nullptr; }
     void sut_force_unlock() override { InSutLock s; t->unlock(t); }
     void sut_probe(Ctx &) override { InSut s; t->get(t, "probe-key", nullptr, false); }
@@ -117,11 +130,37 @@ struct LtWorld : World {
         return o;
     }
 
+    qlisttbl_data_t *pending = nullptr; std::vector<Bytes> pending_expect; int pending_age = 0;
+    void check_pending(Ctx &x, bool force) {
+        if (!pending) return;
+        if (!force && ++pending_age < 3) return;
+        for (size_t i = 0; i < pending_expect.size(); i++)
+            if (memcmp(pending[i].data, pending_expect[i].data(), pending_expect[i].size()) != 0) {
+                pending = nullptr;
+                x.fail("alias", "alias", "a value copied out by getmulti(newmem) changed after later operations on the table");
+            }
+        { InSut s; t ? t->freemulti(pending) : qlisttbl_freemulti(pending); }
+        pending = nullptr;
+    }
     Result sut_apply(const Op &op, Ctx &x) override {
+        Result r = sut_apply2(op, x);
+        if (pending && op.k != LT_GETMULTI) check_pending(x, false);
+        return r;
+    }
+    Result sut_apply2(const Op &op, Ctx &x) {
         Bytes k = key(op.a), kz = k + Bytes(1, '\0');
         switch (op.k) {
         case LT_PUT: {
             Bytes v = value(op); int api = op.d & 3; bool ok;
+            if (op.d & SELFREF) {
+                CallerBuf kb2(kz); size_t n = 0; void *p;
+                { InSut s; p = t->get(t, (const char *)kb2.p, &n, false); }
+                if (!p || n == 0) return R_ok("skip");
+                size_t off = (size_t)op.c % n;
+                { InSut s; ok = t->put(t, (const char *)kb2.p, (char *)p + off, n - off); }
+                x.st.add("probe.put_from_own_value");
+                return ok ? R_ok() : R_fail();
+            }
             CallerBuf kb(kz), vb(v);
             const char *kp = (op.d & NULLKEY) ? nullptr : (const char *)kb.p;
             const void *vp = (op.d & NULLDATA) ? nullptr : vb.p;
@@ -158,6 +197,12 @@ struct LtWorld : World {
             Bytes out = num((long long)cnt) + ":";
             for (size_t i = 0; i < cnt; i++) enc(out, Bytes((const char *)objs[i].data, objs[i].size));
             if (objs[cnt].type != 0) out += "!no-end-mark";
+            if (newmem && x.o_alias && !mt && !pending) {
+                // keep the copied result set across the next operations: it must stay intact until the client releases it
+                pending = objs; pending_expect.clear(); pending_age = 0;
+                for (size_t i = 0; i < cnt; i++) pending_expect.push_back(Bytes((const char *)objs[i].data, objs[i].size));
+                return R_ok(out);
+            }
             { InSut s; t->freemulti(objs); }
             return R_ok(out);
         }
@@ -281,6 +326,8 @@ Result LtModel::apply(const Op &op) {
     case LT_PUT: {
         if (op.d & (NULLKEY | NULLDATA)) return R_fail();
         Bytes val = w->value(op);
+        if (op.d & SELFREF) { auto idx = lookup_order(&k); if (idx.empty()) return R_ok("skip"); const Bytes &cur = v[idx[0]].second; val = cur.substr((size_t)op.c % cur.size()); }
+        else
         if ((op.d & 3) == 1 || (op.d & 3) == 2) val = Bytes(val.c_str()) + Bytes(1, '\0');
         if (w->opts & O_UNIQUE) v.erase(std::remove_if(v.begin(), v.end(), [&](const Ent &e) { return match(e.first, k); }), v.end());
         if (w->opts & O_TOP) v.insert(v.begin(), Ent(k, val)); else v.push_back(Ent(k, val));
